@@ -5,7 +5,10 @@ import verif as V
 # (source name, kind, extra flags) of everything --setup builds
 HARNESSES = [
     ("c01", "rcfork", ()),
+    ("c02", "rcfork", ()),
     ("c03", "rcfork", ()),
+    ("c08", "rcfork", ()),
+    ("c12", "rcfork", ()),
     ("c04", "rcfork", ()),
     ("fz_bitmap_hwloc", "fuzz", ("-DFMT=0",), "fz_bitmap"),
     ("fz_bitmap_list", "fuzz", ("-DFMT=1",), "fz_bitmap"),
@@ -61,11 +64,15 @@ def replay_one(ctx, path):
 
 
 # engine cfg.name -> source file name
-ALIASES = {"c01_load": "c01", "c03_bitmap": "c03", "c04_strings": "c04"}
+ALIASES = {"c01_load": "c01", "c02_history": "c02", "c03_bitmap": "c03", "c08_restrict": "c08", "c12_dup": "c12", "c04_strings": "c04"}
 
 
 def C01(ctx):
     std_check(ctx, [dict(harness="c01", aliases=["c01_load"], cases=(1000, 12000), max_ops=1)])
+
+
+def C02(ctx):
+    std_check(ctx, [dict(harness="c02", aliases=["c02_history"], cases=(180, 12000), max_ops=12)])
 
 
 def C03(ctx):
@@ -99,4 +106,12 @@ def C04(ctx):
     ])
 
 
-PROPS = {"C01": C01, "C03": C03, "C04": C04}
+def C08(ctx):
+    std_check(ctx, [dict(harness="c08", aliases=["c08_restrict"], cases=(900, 20000), max_ops=3)])
+
+
+def C12(ctx):
+    std_check(ctx, [dict(harness="c12", aliases=["c12_dup"], cases=(200, 12000), max_ops=12)])
+
+
+PROPS = {"C01": C01, "C08": C08, "C12": C12, "C02": C02, "C03": C03, "C04": C04}
